@@ -56,16 +56,15 @@ Qed.
 
 (* ---------- errors and truthful "needed" answers keep the file (repair D10, D31) ---------- *)
 Theorem neighbour_error_keeps w x o lo hi :
-  o_fromdoc o = true -> x_own x = OwnRange lo hi -> ((lo <=? o_lo o) && (o_hi o + 1 <=? hi) = false) ->
-  x_nb x = NbErr -> cleanup_deletes w x o = false.
-Proof. intros F O R N. unfold cleanup_deletes. rewrite F, O, R, N. reflexivity. Qed.
+  o_fromdoc o = true -> x_own x = OwnRange lo hi -> x_nb x = NbErr -> cleanup_deletes w x o = false.
+Proof. intros F O N. unfold cleanup_deletes. rewrite F, O, N. reflexivity. Qed.
 
 Theorem neighbour_needs_keeps w x o lo hi y :
-  o_fromdoc o = true -> x_own x = OwnRange lo hi -> ((lo <=? o_lo o) && (o_hi o + 1 <=? hi) = false) ->
+  o_fromdoc o = true -> x_own x = OwnRange lo hi ->
   x_nb x = NbLive -> In y (g_dbs w) -> is_live y = true -> needs_table y (o_name o) = true ->
   cleanup_deletes w x o = false.
 Proof.
-  intros F O R N Hy L Nd. unfold cleanup_deletes. rewrite F, O, R, N. cbn [negb].
+  intros F O N Hy L Nd. unfold cleanup_deletes. rewrite F, O, N. cbn [negb].
   apply negb_false_iff. apply existsb_exists. exists y. split; [exact Hy|]. rewrite L, Nd. reflexivity.
 Qed.
 
